@@ -665,6 +665,9 @@ func c18(r *h.Result, rng *h.Rng, tier string, replay string) error {
 	if err := c18Cluster(r, rng.Fork(), tier); err != nil {
 		return err
 	}
+	if err := c18CtrlInit(r, rng.Fork(), tier); err != nil {
+		return err
+	}
 
 	// ---- stream 4 (thorough): all pairs of failure points
 	if tier != "quick" {
